@@ -169,3 +169,17 @@ M("C04", "offset-uses-last-bank", MAP, "return (bank - self.bank_range[0]) * sel
 M("C04", "inverse-drops-window-start", MAP, "return (bank + self.bank_range[0]) << 16 | (self.mask & 0xFFFF) + value % self.mask", "return (bank + self.bank_range[0]) << 16 | value % self.mask", "C04.R5")
 M("C04", "advance-from-logical", MAP, "logical_address = mapping.logical_address(physical_address + other)", "logical_address = mapping.logical_address(physical_address) + other", "C04.R5")
 M("C04", "formula-rewritten-neutral", MAP, "return (bank - self.bank_range[0]) * self.mask + (value & ~self.mask & 0xFFFF)", "return self.mask * (bank - self.bank_range[0]) + (value & 0xFFFF & ~self.mask)", neutral=True)
+
+# ------------------------------------------------------------------ C08
+M("C08", "compound-drops-pop", CG, "    code += generate_block(node, resolver, macro_definitions, file_info)\n    code.append(PopScopeNode(resolver))\n", "    code += generate_block(node, resolver, macro_definitions, file_info)\n", "C08.R1")
+M("C08", "for-misses-restore", CG, "        code.append(PopScopeNode(resolver))\n        resolver.restore_scope()\n    return code\n\n\ndef generate_if", "        code.append(PopScopeNode(resolver))\n    return code\n\n\ndef generate_if", "C08.R1")
+M("C08", "scope-body-before-scopenode", CG, "    code: list[NodeProtocol] = [ScopeNode(resolver)]\n\n    code += _code_gen(node.body.body, resolver, macro_definitions)\n", "    code: list[NodeProtocol] = _code_gen(node.body.body, resolver, macro_definitions)\n    code.insert(0, ScopeNode(resolver))\n", "C08.R1")
+M("C08", "if-emits-scope-node", CG, "    if condition:\n        code += _code_gen(if_branch_true.body, resolver, macro_definitions)", "    if condition:\n        code.append(ScopeNode(resolver))\n        code += _code_gen(if_branch_true.body, resolver, macro_definitions)", "C08.R1")
+M("C08", "popscope-emit-exports-not-pcafter", NODES, "        self.resolver.restore_scope(exports=True)\n        return current_pc", "        self.resolver.restore_scope()\n        return current_pc", "C08.R2")
+M("C08", "scopenode-emit-skips", NODES, "    def emit(self, current_addr: Address) -> bytes:\n        self.resolver.use_next_scope()\n        return b\"\"", "    def emit(self, current_addr: Address) -> bytes:\n        return b\"\"", "C08.R2")
+M("C08", "parent-first", SYM, "            if symbol in self.symbols or symbol in self.code_symbols:\n                return self[symbol]\n            else:\n                return self.parent.value_for(symbol)",
+  "            try:\n                return self.parent.value_for(symbol)\n            except SymbolNotDefined:\n                return self[symbol]", "C08.R3")
+M("C08", "export-without-prefix", SYM, 'scope.parent.symbols |= {f"{scope.name}.{k}": v for k, v in scope.symbols.items()}', 'scope.parent.symbols |= {f"{k}": v for k, v in scope.symbols.items()}', "C08.R4")
+M("C08", "internal-scope-parent-root", SYM, "scope = InternalScope(self, self.current_scope)", "scope = InternalScope(self, self.scopes[0])", "C08.R2")
+M("C08", "label-node-switches-scope", NODES, "        self.resolver.current_scope.add_label(self.symbol_name, current_pc)\n        return current_pc", "        self.resolver.current_scope = self.resolver.scopes[0]\n        self.resolver.current_scope.add_label(self.symbol_name, current_pc)\n        return current_pc", "C08.R5")
+M("C08", "get-table-ignores-parent", SYM, "            if self.parent:\n                return self.parent.get_table()\n            else:\n                return None", "            return None", "C08.R3")
